@@ -26,6 +26,7 @@ func init() {
 			lockPairing(r)
 			replicationUnderLock(r, la)
 			singleWriterRouting(r)
+			optionsCompose(r)
 			kvSingleLiveVersion(r)
 			kvLookupCoversAllTables(r)
 		},
